@@ -1,9 +1,9 @@
 (* Walker family (C01 C09 C16): the generic theorems instantiated with the tables REGENERATED from /repo on this
-   run (Gen_AstSchema: go/ast's own walk order; Gen_Walker: ruleguard/ast_walker.go:walk; Gen_WalkTables: gogrep's
+   run (Gen_AstSchema: go/ast's own walk order; Gen_Walker: ruleguard/ast_walker.go:walk; Gen_WalkTags: gogrep's
    nodetag.FromNode).  The finite obligations are closed by vm_compute; everything else is the generic proof. *)
 From Coq Require Import List NArith Bool Arith Lia.
 From RG.Ast Require Import Tree Walker WalkerProof WalkSpec WfCheck.
-From RGW Require Import Gen_AstSchema Gen_Walker Gen_WalkTables.
+From RGW Require Import Gen_AstSchema Gen_Walker Gen_WalkTags.
 Import ListNotations.
 
 Definition AF : nat := 400.
